@@ -193,11 +193,17 @@ pub fn apply(op: usize, d0: &Desc, s: &mut Src) -> Option<Edit> {
             e(d, 5, if arr { "array-element" } else { "typedef" })
         }
         8 => {
-            let packets: Vec<String> = recs.iter().filter(|i| matches!(d.decls[**i], Decl::Record { packet: true, .. })).map(|i| d.decls[*i].id().to_string()).collect();
+            // a typedef or array element type must be an enum, struct, custom field or checksum: packets and groups are not
+            let mut packets: Vec<String> = recs.iter().filter(|i| matches!(d.decls[**i], Decl::Record { packet: true, .. })).map(|i| d.decls[*i].id().to_string()).collect();
+            let groups: Vec<String> = d.decls.iter().filter(|x| matches!(x, Decl::Group { .. })).map(|x| x.id().to_string()).collect();
+            let n_packets = packets.len();
+            packets.extend(groups);
             if packets.is_empty() {
                 return None;
             }
-            let p = s.pick(&packets).clone();
+            let pi = s.below(packets.len());
+            let of_group = pi >= n_packets;
+            let p = packets[pi].clone();
             let i = pick_rec(s)?;
             if d.decls[i].id() == p {
                 return None; // would be recursion (E2) as well
@@ -205,7 +211,7 @@ pub fn apply(op: usize, d0: &Desc, s: &mut Src) -> Option<Edit> {
             let arr = s.bool();
             let f = if arr { FieldDesc::Array { id: "zt".into(), elem: Elem::Ty(p), count: None, modifier: None } } else { FieldDesc::Typedef { id: "zt".into(), ty: p } };
             fields_mut(&mut d.decls[i])?.push(Field::new(f));
-            e(d, 6, if arr { "array-of-packet" } else { "typedef-of-packet" })
+            e(d, 6, match (arr, of_group) { (true, false) => "array-of-packet", (false, false) => "typedef-of-packet", (true, true) => "array-of-group", (false, true) => "typedef-of-group" })
         }
         9 => {
             let i = pick_rec(s)?;
